@@ -177,6 +177,42 @@ func (w *World) lookupQualified(name string) *ssa.Function {
 	if f, ok := w.fnIndex[name]; ok {
 		return f
 	}
+	// methods of types that come from export data are created on demand
+	if strings.HasPrefix(name, "(") {
+		close := strings.Index(name, ").")
+		if close < 0 {
+			return nil
+		}
+		recv, meth := name[1:close], name[close+2:]
+		ptr := strings.HasPrefix(recv, "*")
+		recv = strings.TrimPrefix(recv, "*")
+		dot := strings.LastIndex(recv, ".")
+		if dot < 0 {
+			return nil
+		}
+		pkg := w.ssaPkgs[recv[:dot]]
+		if pkg == nil {
+			return nil
+		}
+		obj := pkg.Pkg.Scope().Lookup(recv[dot+1:])
+		if obj == nil {
+			return nil
+		}
+		var t types.Type = obj.Type()
+		if ptr {
+			t = types.NewPointer(t)
+		}
+		sel := w.Prog.MethodSets.MethodSet(t).Lookup(pkg.Pkg, meth)
+		if sel == nil {
+			return nil
+		}
+		return w.Prog.MethodValue(sel)
+	}
+	if dot := strings.LastIndex(name, "."); dot > 0 {
+		if pkg := w.ssaPkgs[name[:dot]]; pkg != nil {
+			return pkg.Func(name[dot+1:])
+		}
+	}
 	return nil
 }
 
